@@ -46,7 +46,7 @@ def strategy(draw):
     return dict(rec=rec, a=draw(ANGLES), b=draw(ANGLES), theta=draw(ANGLES), d_pol=draw(ANGLES),
                 pol=draw(gen.signal_recipe(kinds=("noise", "sines", "chirp"), scale_exp=(exp, exp))),
                 x_pre=draw(st.one_of(ANGLES, st.sampled_from([0.0, 0.0, 360.0]))), spec=spec, azimuths=azs, p1=p1, p2=p2,
-                inv_method=draw(gen.choice(INVARIANT)), inv_angle=draw(ANGLES))
+                inv_method=draw(gen.choice(INVARIANT)), inv_angle=draw(ANGLES), inherited_meta=draw(gen.chance(4)))
 
 
 def warmup():
@@ -76,7 +76,11 @@ def check_case(case):
 
     def mk(dfn=d, comps=None):
         a, b, c = comps if comps is not None else (ns, ew, vt)
-        return R(TS(a, dt), TS(b, dt), TS(c, dt), degrees_from_north=dfn)
+        meta = None
+        if case.get("inherited_meta"):
+            # metadata taken over from a recording that sits at the first target orientation
+            meta = R(TS(a, dt), TS(b, dt), TS(c, dt), degrees_from_north=case["a"]).meta
+        return R(TS(a, dt), TS(b, dt), TS(c, dt), degrees_from_north=dfn, meta=meta)
 
     # ---- rotation algebra ------------------------------------------------
     a, b = case["a"], case["b"]
